@@ -9208,7 +9208,7 @@ typename S_<TN_, TA_, EmptyT<TA_>>::UP
 S_<TN_, TA_, EmptyT<TA_>>::deepReportChange(Control& control) noexcept {
 	const Parent parent = stateParent(control);
 
-	return {Utility{}, parent.prong};
+	return {Utility{1}, parent.prong};
 }
 
 template <typename TN_, typename TA_>
@@ -9217,7 +9217,7 @@ typename S_<TN_, TA_, EmptyT<TA_>>::UP
 S_<TN_, TA_, EmptyT<TA_>>::deepReportUtilize(Control& control) noexcept {
 	const Parent parent  = stateParent(control);
 
-	return {Utility{}, parent.prong};
+	return {Utility{1}, parent.prong};
 }
 
 template <typename TN_, typename TA_>
@@ -9231,7 +9231,7 @@ template <typename TN_, typename TA_>
 HFSM2_CONSTEXPR(14)
 typename S_<TN_, TA_, EmptyT<TA_>>::Utility
 S_<TN_, TA_, EmptyT<TA_>>::deepReportRandomize(Control& HFSM2_UNUSED(control)) noexcept {
-	return Utility{};
+	return Utility{1};
 }
 
 #endif
